@@ -120,7 +120,17 @@ func checkC14(p *Program, r *Result) {
 
 func checkAttachmentSize(p *Program, r *Result, wa *ssa.Function) {
 	fname := funcName(wa)
-	copies := callsIn(wa, func(ci ssa.CallInstruction) bool { return calleeIs(ci, "io.Copy", "io.CopyN", "io.CopyBuffer") })
+	// the copy may sit in an unexported helper of WriteAttachment: the comparison is then looked for in that helper, and
+	// the bookkeeping in WriteAttachment must follow the success branch of the helper's error test
+	root := wa
+	var copies []ssa.CallInstruction
+	tops := map[ssa.CallInstruction]ssa.CallInstruction{}
+	for _, dc := range deepCalls(p, wa, 3) {
+		if calleeIs(dc.in, "io.Copy", "io.CopyN", "io.CopyBuffer") {
+			copies = append(copies, dc.in)
+			tops[dc.in] = dc.top()
+		}
+	}
 	if len(copies) == 0 {
 		r.undecided("C14.b", fname, "copy of a.Data", p.pos(wa.Pos()), "no io.Copy of the attachment data found; streaming idiom not recognised")
 		return
@@ -130,6 +140,7 @@ func checkAttachmentSize(p *Program, r *Result, wa *ssa.Function) {
 		if !ok {
 			continue
 		}
+		wa := call.Parent()
 		// the source operand must be the attachment's Data field
 		var n ssa.Value
 		for _, ref := range *call.Referrers() {
@@ -179,8 +190,18 @@ func checkAttachmentSize(p *Program, r *Result, wa *ssa.Function) {
 		}
 		// bookkeeping must be dominated by the match successor
 		for _, f := range []struct{ t, f string }{{"Writer", "AttachmentIndexes"}, {"Statistics", "AttachmentCount"}} {
-			for _, st := range fieldStores(wa, f.t, f.f) {
-				if match.Dominates(st.Block()) && len(match.Preds) == 1 {
+			for _, st := range regionStores(regionOf(p, root, 3), f.t, f.f) {
+				inHelperOK := false
+				if st.Parent() != wa && st.Parent() == root {
+					if top, ok := tops[cp].(*ssa.Call); ok && errSuccessDominates(top, st) {
+						inHelperOK = true
+					}
+				}
+				if inHelperOK {
+					r.held("C14.b", fname, "update of "+f.t+"."+f.f+" after size check", p.pos(st.Pos()), "follows the success branch of the helper that copies and checks the size")
+				} else if st.Parent() != wa && st.Parent() != root {
+					r.note("C14.b", fname, "update of "+f.t+"."+f.f+" after size check", p.pos(st.Pos()), "bookkeeping and copy live in different helpers: order not judged")
+				} else if st.Parent() == wa && match.Dominates(st.Block()) && len(match.Preds) == 1 {
 					r.held("C14.b", fname, "update of "+f.t+"."+f.f+" after size check", p.pos(st.Pos()), "dominated by the size-match branch")
 				} else {
 					r.violated("C14.b", fname, "update of "+f.t+"."+f.f+" after size check", p.pos(st.Pos()), "index/statistics update is not dominated by the successful size comparison")
@@ -226,4 +247,45 @@ func checkBookkeepingOrder(p *Program, r *Result, scope func(ssa.CallInstruction
 			}
 		}
 	}
+}
+
+// errSuccessDominates: at is only reached after the error result of call was tested and found nil.
+func errSuccessDominates(call *ssa.Call, at ssa.Instruction) bool {
+	var errv ssa.Value
+	res := call.Call.Signature().Results()
+	if res.Len() == 0 || !isErrorType(res.At(res.Len()-1).Type()) {
+		return false
+	}
+	if res.Len() == 1 {
+		errv = call
+	} else {
+		for _, ref := range *call.Referrers() {
+			if ex, ok := ref.(*ssa.Extract); ok && ex.Index == res.Len()-1 {
+				errv = ex
+			}
+		}
+	}
+	if errv == nil {
+		return false
+	}
+	for _, ref := range *errv.Referrers() {
+		b, ok := ref.(*ssa.BinOp)
+		if !ok || !(isNilConst(b.X) || isNilConst(b.Y)) {
+			continue
+		}
+		for _, r2 := range *b.Referrers() {
+			iff, ok := r2.(*ssa.If)
+			if !ok {
+				continue
+			}
+			succ := iff.Block().Succs[1] // err != nil: false branch is success
+			if b.Op == token.EQL {
+				succ = iff.Block().Succs[0]
+			}
+			if len(succ.Preds) == 1 && succ.Dominates(at.Block()) {
+				return true
+			}
+		}
+	}
+	return false
 }
